@@ -707,26 +707,46 @@ def execute(ctx, prog, display, terminal, firings, height, strategy, strat_kind,
 
 
 def taint(events, writes):
-    """The known print-versus-refresh window: some other thread renders or writes the live frame strictly inside a
-    print/log/capture operation's window [hook call, file write] of a thread that did not hold the live lock."""
-    # only windows opened by print / log / capture operations are the known mechanism: refresh, update, start and
-    # stop are documented to run under the live lock, so an unlocked window there is a different defect
-    hooks = [(s, t) for s, t, k, d in events if k == "hook" and d[0] is False and d[1] in ("print", "log", "capture", "print_same", "capture_same", "batch_capture")]
+    """The known print-versus-refresh window: a print / log / capture operation passes the render hook, renders the
+    frame and writes WITHOUT holding the live lock, so it is not atomic with the display's own refreshes.  A run is
+    tainted when, inside some thread's window [hook call, file write],
+      (a) the window belongs to such an unlocked operation and another thread renders or writes the live frame, or
+      (b) the window belongs to a lock-holding operation (refresh, update, add_task ...) and another thread that is in
+          an unlocked print / log / capture renders or writes the frame (the mirror image: the refresh's erase count
+          is the stale one).
+    Two lock-holding operations overlapping is NOT this mechanism: the display lock should have kept them apart."""
+    unlocked = ("print", "log", "capture", "print_same", "capture_same", "batch_capture", "pyprint", "pyflush")
+    # which operation a worker thread was in at a given step
+    spans = {}
+    for s, t, k, d in events:
+        if k == "op_begin":
+            spans.setdefault(t, []).append([s, None, d[0]])
+        elif k == "op_end" and spans.get(t):
+            spans[t][-1][1] = s
+
+    def op_at(thread, step):
+        for a, b, kind in spans.get(thread, ()):
+            if a <= step and (b is None or step <= b):
+                return kind
+        return None
+    hooks = [(s, t, d[1]) for s, t, k, d in events if k == "hook"]
     renders = [(s, t) for s, t, k, d in events if k == "frame_render"]
-    for hs, ht in hooks:
+    for hs, ht, hop in hooks:
         # the write of that thread that follows the hook
         ws = [w[0] for w in writes if w[1] == ht and w[0] >= hs]
         if not ws:
             continue
         we = min(ws)
+        mine_unlocked = hop in unlocked
         for rs, rt in renders:
-            if rt != ht and hs < rs <= we:
+            if rt != ht and hs < rs <= we and (mine_unlocked or op_at(rt, rs) in unlocked):
                 return True
         for w in writes:
             # (a Live frame carries F tokens, the rows of a Progress frame the task descriptions K<n>; the render event
             # above is logged when the frame's renderer is CALLED, its height is recorded a few lines later - a print
             # whose hook falls between the two is only seen through the other thread's write)
-            if w[1] != ht and hs < w[0] <= we and (_FRAME.search(w[2]) or _KROW.search(w[2])):
+            if w[1] != ht and hs < w[0] <= we and (_FRAME.search(w[2]) or _KROW.search(w[2])) \
+                    and (mine_unlocked or op_at(w[1], w[0]) in unlocked):
                 return True
     return False
 
